@@ -20,7 +20,9 @@ SPEC = os.path.join(VERIF, "spec")
 OUT = os.path.join(VERIF, "out")
 HARNESS = os.path.join(VERIF, "harness")
 DRIVER = os.path.join(HARNESS, "target", "debug", "tx3-driver")
-REPO = "/repo"
+# the repository under test; background sweeps may point this at a snapshot (the registered
+# checks always run against /repo itself)
+REPO = os.environ.get("TX3_REPO", "/repo")
 TLA_LIB = ":".join([SPEC, os.path.join(SPEC, "mc"), os.path.join(SPEC, "trace")])
 
 
